@@ -42,14 +42,13 @@ theorem C16_seq (tr : List (XBits × ProcIn)) (r : ProcRegs) :
 theorem C16_system (x : XBits) (i : HexIn) (r : HexRegs) :
     VH.next x i r = SvH.next i r ∧ VH.out x i r = SvH.out i r ∧
     SynthVH.next x i r = SvH.next i r ∧ SynthVH.out x i r = SvH.out i r :=
-  ⟨hex_next_same x i r, hex_out_same x i r,
-   (synth_hex_next_same x i r).trans (hex_next_same x i r), (synth_hex_out_same x i r).trans (hex_out_same x i r)⟩
+  ⟨hex_next_same x i r, hex_out_same x i r, synth_hex_next_same x i r, synth_hex_out_same x i r⟩
 
 theorem C16_system_seq (tr : List (XBits × HexIn)) (r : HexRegs) :
     iterHex VH.next tr r = iterHex (fun _ => SvH.next) tr r ∧
     iterHex SynthVH.next tr r = iterHex (fun _ => SvH.next) tr r :=
   ⟨iterHex_congr _ _ hex_next_same tr r,
-   iterHex_congr _ _ (fun x i r => (synth_hex_next_same x i r).trans (hex_next_same x i r)) tr r⟩
+   iterHex_congr _ _ synth_hex_next_same tr r⟩
 
 /-- The sensitivity lists agree (`posedge i_clk or posedge i_rst` in all three), so "an event"
     means the same thing for the three designs. -/
